@@ -262,3 +262,32 @@ def match_spec(cells, fb, spec):
             else:
                 bad_formula = "cell %r: got %s, documented %s" % (box, short(got, 300), short(want, 300))
     return bad_formula, bad_region
+
+
+def memo_key_rule(S, rep, pid):
+    """<pid>.memo: functools.cache / lru_cache look a call up by `==` and hash of its arguments.  Without typed=True,
+    np.float32(x), np.float64(x), x and int(x) are one key whenever they compare equal, so a memoised function whose result
+    depends on the TYPE of an argument (param.dtype, type(param), isinstance(param, ...)) returns what an earlier call with an
+    equal argument of another precision computed: the result depends on the history of the process."""
+    import ast
+    seen = set()
+    for fn, typed, where in S.I.memoised:
+        if id(fn) in seen:
+            continue
+        seen.add(id(fn))
+        a = fn.node.args
+        params = {x.arg for x in a.posonlyargs + a.args + a.kwonlyargs}
+        bad = []
+        for n in ast.walk(fn.node):
+            if isinstance(n, ast.Attribute) and n.attr in ("dtype", "itemsize", "nbytes", "__class__") and isinstance(n.value, ast.Name) and n.value.id in params:
+                bad.append("%s.%s (line %d)" % (n.value.id, n.attr, n.lineno))
+            if isinstance(n, ast.Call) and isinstance(n.func, ast.Name) and n.func.id in ("type", "isinstance") and n.args \
+                    and isinstance(n.args[0], ast.Name) and n.args[0].id in params:
+                bad.append("%s(%s, ...) (line %d)" % (n.func.id, n.args[0].id, n.lineno))
+        ok = typed or not bad
+        rep.ob(pid + ".memo", "%s memo key determines the result" % fn.qualname, ok,
+               "memoised at %s without typed=True, yet the result depends on the type of an argument: %s; a call with an equal "
+               "argument of another precision (np.float32(x) == np.float64(x) for every x single precision represents) gets the "
+               "earlier call's result" % (where, ", ".join(sorted(set(bad)))) if not ok else "key (==/hash of the arguments%s) determines the result" % (", typed" if typed else ""),
+               key="%s.memo|%s|%s" % (pid, fn.qualname, sorted(set(bad))), nontrivial=False)
+    rep.note("memoised_functions", len(seen))
